@@ -154,7 +154,8 @@ def run(ctx):
         for chain in chains or [[]]:
             # the innermost try whose *body* holds the call, and the innermost loop
             ti = next((i for i, (x, fld) in enumerate(chain) if isinstance(x, ast.Try) and fld == "body"), None)
-            li = next((i for i, (x, _f) in enumerate(chain) if isinstance(x, (ast.For, ast.AsyncFor, ast.While))), None)
+            li = next((i for i, (x, _f) in enumerate(chain) if isinstance(x, (ast.For, ast.AsyncFor, ast.While)) or
+                       (isinstance(x, (ast.ListComp, ast.GeneratorExp, ast.SetComp, ast.DictComp)) and _f in ("elt", "key", "value"))), None)   # per element of a comprehension
             inside = ti is not None and li is not None and ti < li
             ctx.ob("C14.b", GETR, inside, "Response.construct is wrapped by a try that lies inside the per-frame loop",
                    func=GETR, file=f.module.rel, node=c,
